@@ -25,6 +25,8 @@ for sid in sorted(d for d in os.listdir(ROOT) if os.path.isdir(os.path.join(ROOT
         raw.append("##### " + label + "\n" + txt)
         for m in re.finditer(r"^### \S+:(.*)$", txt, re.M):
             for t in m.group(1).split():
+                if "=" not in t:
+                    continue
                 k, v = t.split("=")
                 verdict[k] = v
                 lines.pop(k, None)
